@@ -139,6 +139,16 @@ def laws (kind : Kind) (s : K) (x : Ix → K) : Cpt K → List (Nat × K)
   | .SP n1 n2 n3 n4 m c1 c2 c4 => [(m, volt x n3 - (c1 * volt x n1 + c2 * volt x n2 + c4 * volt x n4))]
   | _ => []
 
+/-- the values by which a component's law (as written above) DIVIDES are non-zero: the resistance of a resistor
+    (`vd / r`).  For `R n1 n2 0` the totalised division gives current 0 -- an open circuit, not the short circuit that
+    v = r·i describes -- so every statement that relies on the resistor clause of `outflow` is made under this guard
+    (Props/C01Ohm.lean); the front-end rejects such netlists (`ill-formed:zero-resistance`), Lcapy reports `zoo`. -/
+def Cpt.valOK : Cpt K → Prop
+  | .R _ _ r => r ≠ 0
+  | _ => True
+
+def ValOK (cs : List (Cpt K)) : Prop := ∀ c ∈ cs, c.valOK
+
 /-- KCL at every non-ground node and every component's defining relation. -/
 def Laws (kind : Kind) (s : K) (cs : List (Cpt K)) (x : Ix → K) : Prop :=
   (∀ k, k ≠ 0 → lsum (cs.map (outflow kind s x k)) = 0) ∧
